@@ -135,7 +135,8 @@ FinMatches(w, fin) ==
   /\ \A c \in Contracts : /\ fin[c].dead = w.dead[c]
                           /\ (fin[c].code = "y") = w.code[c] /\ fin[c].code \in {"y", "n"}
                           /\ \A s \in Slots : fin[c][s] = w.stor[c][s]
-  /\ fin.nlog = NEv(w, "log") /\ fin.nfail = NEv(w, "fail")
+  /\ fin.nlog = NEv(w, "log")
+  /\ fin.nfail \in 0..NEv(w, "fail")      \* the platform MAY record a failure event per failed call (it does today: equality holds)
 
 \* a run that completed: every event legal, stack empty, real post-state = re-executed world
 Completed(r, devS) ==
